@@ -8,6 +8,9 @@ kinds
     U  unstored call        plan.call(f_i, *args)
     W  side-effecting call  unstored call that writes its term into the store of node `target` (a D)
     D  dependent source     registry.source(plan, store) with add_dependency(W, D)
+    L  plan literal         plan.lit(("lit", i)) with add_dependency(dep, L); transparent for dependencies
+    A  alias source         registry.source over the SAME stored slot as stored call `of`, with
+                            add_dependency(of, A) (the "source dependent on write" idiom)
 args are positional argument edges, deps plain add_dependency edges (a pair may have both).
 
 State = contents of every store: missing | (logical time, value).  Nothing else
@@ -37,7 +40,12 @@ class Death(BaseException):
 # spec helpers
 # --------------------------------------------------------------------------
 
-STORED = ("S", "C", "D")
+STORED = ("S", "C", "D")  # kinds that own a stored slot
+TIMED = ("S", "C", "D", "A")  # kinds that have a value store (A shares the slot of its `of` node)
+
+
+def slot(spec, i):
+    return spec[i].get("of", i)
 
 
 def spec_str(spec):
@@ -48,8 +56,10 @@ def spec_str(spec):
             s += "(" + ",".join(map(str, nd["args"])) + ")"
         if nd.get("deps"):
             s += "<" + ",".join(map(str, nd["deps"])) + ">"
-        if nd["kind"] == "W":
+        if "target" in nd:
             s += f"->{nd['target']}"
+        if "of" in nd:
+            s += f"={nd['of']}"
         out.append(s)
     return " ".join(out)
 
@@ -68,14 +78,36 @@ def ancestors(spec):
 
 
 def successors(spec):
-    """succ[i] = list of (j, kind) with kind 'a' (argument) or 'd' (plain dependency)."""
-    succ = [[] for _ in spec]
+    """succ[i] = list of (j, kind) with kind 'a' (argument) or 'd' (plain dependency).
+
+    Literal nodes are transparent: what depends on a literal depends (plainly) on everything the
+    literal depends on; the literal itself is never listed as a successor."""
+    raw = [[] for _ in spec]
     for j, nd in enumerate(spec):
         for p in nd.get("args", ()):
-            succ[p].append((j, "a"))
+            raw[p].append((j, "a"))
         for p in nd.get("deps", ()):
-            succ[p].append((j, "d"))
+            raw[p].append((j, "d"))
+    succ = [None] * len(spec)
+    for i in range(len(spec) - 1, -1, -1):
+        out = []
+        for j, kind in raw[i]:
+            if spec[j]["kind"] == "L":
+                out.extend((k, "d") for k, _ in succ[j])
+            else:
+                out.append((j, kind))
+        succ[i] = out
     return succ
+
+
+def eff_preds(spec, i):
+    out = []
+    for p in preds(spec, i):
+        if spec[p]["kind"] == "L":
+            out.extend(eff_preds(spec, p))
+        else:
+            out.append(p)
+    return out
 
 
 # --------------------------------------------------------------------------
@@ -97,6 +129,10 @@ def scratch(spec, versions, norm):
             seen[i] = R(stored[i], norm)
         elif k == "D":
             seen[i] = R(stored[i], norm)
+        elif k == "L":
+            seen[i] = ("lit", i)
+        elif k == "A":
+            seen[i] = R(stored[nd["of"]], norm)
         else:
             v = ("f", i, tuple(seen[a] for a in nd.get("args", ())))
             if k == "C":
@@ -120,9 +156,9 @@ def out_of_date(spec, snap, fresh, anc=None):
     ood = set()
     for i, nd in enumerate(spec):
         k = nd["kind"]
-        if k not in STORED:
+        if k not in TIMED:
             continue
-        cur = snap.get(i)
+        cur = snap.get(slot(spec, i))
         if cur is None:
             ood.add(i)
             continue
@@ -130,8 +166,8 @@ def out_of_date(spec, snap, fresh, anc=None):
             ood.add(i)
             continue
         t = cur[0]
-        times = [snap[a][0] for a in anc[i] if spec[a]["kind"] in STORED and snap.get(a) is not None]
-        pure = k in ("S", "D") and not times
+        times = [snap[slot(spec, a)][0] for a in anc[i] if spec[a]["kind"] in TIMED and snap.get(slot(spec, a)) is not None]
+        pure = k in ("S", "D", "A") and not times
         if pure:
             continue
         if fresh is not None and t < fresh:
@@ -157,18 +193,18 @@ def expected_events(spec, ood, outset):
                 kj = spec[j]["kind"]
                 if kj in ("C", "U", "W") and j in ex:
                     need = True
-                elif kj in ("S", "D") and j in ood:
+                elif kj in ("S", "D", "A") and j in ood:
                     need = True
             if need:
                 ex.add(i)
     writes = {i for i in ood if spec[i]["kind"] == "C"}
     reads = set()
     for i, nd in enumerate(spec):
-        if nd["kind"] not in STORED:
+        if nd["kind"] not in TIMED:
             continue
         if i in outset or any(kind == "a" and j in ex for j, kind in succ[i]):
             reads.add(i)
-    sides = {spec[i]["target"] for i in ex if spec[i]["kind"] == "W"}
+    sides = {spec[i]["target"] for i in ex if "target" in spec[i]}
     return {"calls": ex, "writes": writes, "reads": reads, "sides": sides}
 
 
@@ -178,7 +214,7 @@ def expected_events(spec, ood, outset):
 
 
 class World:
-    def __init__(self, spec, snap, versions, clock, norm=False):
+    def __init__(self, spec, snap, versions, clock, norm=False, order="topo"):
         import uberjob
         from uberjob import ValueStore
 
@@ -188,6 +224,7 @@ class World:
         self.versions = dict(versions)
         self.clock = clock
         self.norm = norm
+        self.order = order
         self.log = []
         self.nops = 0
         self.fault = None  # (k, kind)
@@ -203,7 +240,7 @@ class World:
 
             def read(self):
                 world.op("read", self.i)
-                cur = world.snap.get(self.i)
+                cur = world.snap.get(slot(world.spec, self.i))
                 if cur is None:
                     raise KeyError(f"store {self.i} is empty")
                 return R(cur[1], world.norm)
@@ -211,12 +248,12 @@ class World:
             def write(self, value):
                 world.op("write", self.i, value)
                 world.clock += 1
-                world.snap[self.i] = (world.clock, value)
+                world.snap[slot(world.spec, self.i)] = (world.clock, value)
                 world.op("write.done", self.i)
 
             def get_modified_time(self):
                 world.op("mtime", self.i)
-                cur = world.snap.get(self.i)
+                cur = world.snap.get(slot(world.spec, self.i))
                 return None if cur is None else T0 + dt.timedelta(seconds=cur[0])
 
             def __repr__(self):
@@ -243,27 +280,44 @@ class World:
             raise e
 
     def build(self):
+        """order: 'topo' nodes and registry entries in topological order;
+        'sources-first' every registry.source node is created before any call;
+        'adds-late' every registry.add happens after the whole plan exists."""
         uberjob = self.uberjob
         spec = self.spec
         plan = uberjob.Plan()
         reg = uberjob.Registry()
-        nodes = []
+        n = len(spec)
+        nodes = [None] * n
         self.stores = {}
-        for i, nd in enumerate(spec):
+        idx = list(range(n))
+        if self.order == "sources-first":
+            idx = [i for i in idx if spec[i]["kind"] in ("S", "D", "A")] + [i for i in idx if spec[i]["kind"] not in ("S", "D", "A")]
+        late = []
+        for i in idx:
+            nd = spec[i]
             k = nd["kind"]
-            if k in ("S", "D"):
+            if k in ("S", "D", "A"):
                 st = self.stores[i] = self.MemStore(i)
                 node = reg.source(plan, st)
+            elif k == "L":
+                node = plan.lit(("lit", i))
             else:
                 node = plan.call(self.make_fn(i), *[nodes[a] for a in nd.get("args", ())])
                 if k == "C":
                     st = self.stores[i] = self.MemStore(i)
-                    reg.add(node, st)
-            for d in nd.get("deps", ()):
-                plan.add_dependency(nodes[d], node)
-            nodes.append(node)
+                    if self.order == "adds-late":
+                        late.append((node, st))
+                    else:
+                        reg.add(node, st)
+            nodes[i] = node
+        for i in range(n):
+            for d in spec[i].get("deps", ()):
+                plan.add_dependency(nodes[d], nodes[i])
+        for node, st in reversed(late):
+            reg.add(node, st)
         self.plan, self.registry, self.nodes = plan, reg, nodes
-        self.index = {n: i for i, n in enumerate(nodes)}
+        self.index = {n_: i for i, n_ in enumerate(nodes)}
 
     def make_fn(self, i):
         world = self
@@ -271,7 +325,7 @@ class World:
 
         def f(*args):
             world.op("call", i, args)
-            if nd["kind"] == "W":
+            if "target" in nd:
                 tgt = nd["target"]
                 world.op("side", tgt)
                 world.clock += 1
@@ -289,7 +343,7 @@ class World:
         if out == "all":
             # side-effecting producers (W) are never requested as output: running one on request
             # rewrites its target store outside the stale rule, which is the user's doing, not uberjob's
-            idx = [i for i, nd in enumerate(self.spec) if nd["kind"] != "W"]
+            idx = [i for i, nd in enumerate(self.spec) if nd["kind"] not in ("W", "L")]
             return [self.nodes[i] for i in idx], set(idx)
         return self.nodes[out], {out}
 
@@ -388,7 +442,7 @@ def check_run(spec, pre_snap, versions, world, res, out, fresh, anc, norm):
             elif cur[1] != stored_ref[i]:
                 msgs.append(("C03", f"store {i} holds {cur[1]!r} after a successful run, from-scratch value is {stored_ref[i]!r}"))
     if out is not None:
-        expv = [seen_ref[i] for i in range(len(spec)) if spec[i]["kind"] != "W"] if out == "all" else seen_ref[out]
+        expv = [seen_ref[i] for i in range(len(spec)) if spec[i]["kind"] not in ("W", "L")] if out == "all" else seen_ref[out]
         if res[1] != expv:
             msgs.append(("C03", f"run returned {res[1]!r}, from-scratch evaluation gives {expv!r}"))
     elif res[1] is not None:
@@ -426,13 +480,18 @@ def check_run(spec, pre_snap, versions, world, res, out, fresh, anc, norm):
                 elif wj < w:
                     msgs.append(("C09", f"store {j} (downstream) was rewritten before store {i}"))
     for i in ood:
-        if spec[i]["kind"] == "D" and ("read", i) in pos:
+        if spec[i]["kind"] in ("D", "A") and ("read", i) in pos:
             r = pos[("read", i)]
-            for p in preds(spec, i):
-                if spec[p]["kind"] in ("U", "W", "C"):
-                    endp = next((q for q, e in enumerate(log) if e[0] == "callend" and e[1] == p), None)
-                    if spec[p]["kind"] == "C" and p not in ood:
+            for p in eff_preds(spec, i):
+                kp = spec[p]["kind"]
+                if kp == "C":
+                    if p not in ood:
                         continue
+                    wp = pos.get(("write.done", p))
+                    if wp is None or wp > r:
+                        msgs.append(("C09", f"out-of-date dependent source {i} was read before the rebuilt value {p} it depends on had been written"))
+                elif kp in ("U", "W"):
+                    endp = next((q for q, e in enumerate(log) if e[0] == "callend" and e[1] == p), None)
                     if endp is None or endp > r:
                         msgs.append(("C09", f"out-of-date dependent source {i} was read before the call {p} it depends on had run"))
     return msgs, ood, exp, False
@@ -505,7 +564,7 @@ def initial_state(spec):
 def events_for(spec, snap, opts):
     """The event menu of one state (without FAILRUN, which needs op counts)."""
     n = len(spec)
-    outs = [None] + [i for i in range(n) if spec[i]["kind"] != "W"] + ["all"]
+    outs = [None] + [i for i in range(n) if spec[i]["kind"] not in ("W", "L")] + ["all"]
     if opts.get("outs") == "few":
         outs = [None, n - 1, "all"]
     ev = []
@@ -540,35 +599,95 @@ def apply_event(spec, state, ev, anc, norm, res, hist, twin=None):
     raise ValueError(kind)
 
 
-def step(spec, state, ev, anc, norm, do_dry=False):
+class ScriptRandom:
+    """Replacement for the `random` module global of uberjob._execution.scheduler: every draw
+    follows a scripted choice sequence (default choice 0), so that all pop orders of the
+    'random' scheduler can be enumerated by DFS over choice sequences."""
+
+    def __init__(self, prefix=()):
+        self.prefix = list(prefix)
+        self.trace = []  # (n, chosen)
+        self.diverged = False
+
+    def choose(self, n):
+        k = len(self.trace)
+        c = self.prefix[k] if k < len(self.prefix) else 0
+        if c >= n:
+            # only legitimate after an injected fault changed the rest of the run (FAILRUN);
+            # pop_orders() treats it as a hard error for fault-free runs
+            self.diverged = True
+            c = 0
+        self.trace.append((n, c))
+        return c
+
+    def shuffle(self, x):
+        for i in range(len(x) - 1, 0, -1):
+            j = i - self.choose(i + 1)
+            x[i], x[j] = x[j], x[i]
+
+    def randrange(self, n):
+        return n - 1 - self.choose(n)
+
+
+class scripted:
+    """Context manager installing a ScriptRandom in the scheduler module."""
+
+    def __init__(self, prefix):
+        self.prefix = prefix
+
+    def __enter__(self):
+        import uberjob._execution.scheduler as sch
+
+        self.sch = sch
+        self.old = sch.random
+        if self.prefix is None:
+            return None
+        self.script = ScriptRandom(self.prefix)
+        sch.random = self.script
+        return self.script
+
+    def __exit__(self, *a):
+        self.sch.random = self.old
+        return False
+
+
+def step(spec, state, ev, anc, norm, do_dry=False, order="topo"):
     """Apply one event to a concrete state with the real implementation.
 
-    Returns (new_state, msgs, info); info has 'nops', 'failed', 'world', 'runs'."""
+    RUN events: ("RUN", out, fresh[, pops]); FAILRUN: ("FAILRUN", out, fresh, k, kind, max_errors[, pops]);
+    pops = choice prefix for the 'random' scheduler (None = default scheduler).
+    Returns (new_state, msgs, info); info has 'nops', 'failed', 'world', 'runs', 'trace'."""
     snap, versions, clock = state
     kind = ev[0]
     if kind in ("UPDATE", "DELETE"):
         return apply_event(spec, state, ev, anc, norm, None, None), [], {"runs": 0}
     if kind == "RUN":
         _, out, fr = ev[:3]
-        sched = ev[3] if len(ev) > 3 else None
-        w = World(spec, snap, versions, clock, norm)
-        r = w.run(out=out, fresh=fr, scheduler=sched)
+        pops = ev[3] if len(ev) > 3 else None
+        w = World(spec, snap, versions, clock, norm, order)
+        with scripted(pops) as sc:
+            r = w.run(out=out, fresh=fr, scheduler=None if pops is None else "random")
         runs = 1
         msgs, ood, exp, failed = check_run(spec, snap, versions, w, r, out, fr, anc, norm)
         post = (dict(w.snap), versions, w.clock)
-        if not failed:
-            w2 = World(spec, post[0], versions, post[2], norm)
+        if not failed and pops is None:
+            w2 = World(spec, post[0], versions, post[2], norm, order)
             r2 = w2.run(out=None, fresh=fr)
             runs += 1
             msgs += [(t, "[repeat] " + m) for t, m in check_noop(w2, r2)]
             if do_dry:
-                msgs += check_dry(spec, state, post, w, r, out, fr, norm)
+                msgs += check_dry(spec, state, post, w, r, out, fr, norm, order)
                 runs += 2
-        return post, msgs, {"runs": runs, "nops": w.nops, "failed": failed, "world": w, "ood": ood}
+        if sc is not None and sc.diverged:
+            raise RuntimeError(f"pop-order replay diverged on a fault-free run: {pops} on {spec_str(spec)}")
+        return post, msgs, {"runs": runs, "nops": w.nops, "failed": failed, "world": w, "ood": ood,
+                            "trace": sc.trace if sc else None}
     if kind == "FAILRUN":
-        _, out, fr, k, fkind, me = ev
-        wf = World(spec, snap, versions, clock, norm)
-        rf = wf.run(out=out, fresh=fr, fault=(k, fkind), max_errors=me)
+        _, out, fr, k, fkind, me = ev[:6]
+        pops = ev[6] if len(ev) > 6 else None
+        wf = World(spec, snap, versions, clock, norm, order)
+        with scripted(pops) as sc:
+            rf = wf.run(out=out, fresh=fr, fault=(k, fkind), max_errors=me, scheduler=None if pops is None else "random")
         msgs = []
         if not wf.raised:
             return None, [], {"runs": 1, "skipped": True}
@@ -579,9 +698,34 @@ def step(spec, state, ev, anc, norm, do_dry=False):
     raise ValueError(kind)
 
 
+def pop_orders(spec, state, out, fr, anc, norm, order, cap=4000):
+    """Every execution of RUN(out, fr) under the 'random' scheduler with one worker: DFS over the
+    scheduler's draws.  Yields (prefix, post_state, msgs, info) once per distinct operation log."""
+    stack = [[]]
+    seen_logs = set()
+    n = 0
+    while stack:
+        pre = stack.pop()
+        post, msgs, info = step(spec, state, ("RUN", out, fr, pre), anc, norm, order=order)
+        n += 1
+        tr = info["trace"]
+        for pos in range(len(pre), len(tr)):
+            for alt in range(1, tr[pos][0]):
+                stack.append([c for _, c in tr[:pos]] + [alt])
+        key = tuple((e[0], e[1]) for e in info["world"].log)
+        if key not in seen_logs:
+            seen_logs.add(key)
+            yield [c for _, c in tr], post, msgs, info
+        if n >= cap:
+            yield None, None, [], {"capped": True, "runs": 0}
+            return
+
+
 def explore(spec, opts=None, norm=False):
     """BFS over canonical states of `spec` to a fixpoint.  opts keys:
-    outs: 'all'|'few'; failruns: bool; max_states; dry (C14 twin check)"""
+    outs: 'all'|'few'; failruns: bool; max_states; dry (C14 twin check);
+    order: plan/registry creation order; pops: also enumerate every pop order of the
+    'random' scheduler (1 worker) for RUN(None|all, no fresh_time) and cut every one of them at every k"""
     opts = opts or {}
     anc = ancestors(spec)
     res = Result()
@@ -592,8 +736,11 @@ def explore(spec, opts=None, norm=False):
     max_states = opts.get("max_states", 5000)
     do_fail = opts.get("failruns", True)
     do_dry = opts.get("dry", False)
+    order = opts.get("order", "topo")
+    do_pops = opts.get("pops", False)
     fail_outs = opts.get("fail_outs", (None, "all"))
     fail_combos = opts.get("fail_combos", "all")
+    res.pop_orders = 0
 
     def viol(msgs, hist):
         for t, m in msgs:
@@ -610,6 +757,19 @@ def explore(spec, opts=None, norm=False):
             frontier.append(c)
             res.max_depth = max(res.max_depth, len(hist))
 
+    def failruns(hist, state, out, fr, nops, pops=None):
+        for k in range(1, nops + 1):
+            for fkind, me in (("exc", 0), ("exc", None), ("death", 0)):
+                fev = ["FAILRUN", out, fr, k, fkind, me] + ([pops] if pops is not None else [])
+                postf, msgsf, inf = step(spec, state, fev, anc, norm, order=order)
+                res.runs += inf["runs"]
+                if postf is None:
+                    continue  # the k-th operation did not happen under this error policy
+                res.kinds["FAILRUN"] = res.kinds.get("FAILRUN", 0) + 1
+                hf = hist + [fev]
+                viol(msgsf, hf)
+                visit(postf, hf)
+
     while frontier:
         c = frontier.pop(0)
         hist, state = seen[c]
@@ -617,7 +777,7 @@ def explore(spec, opts=None, norm=False):
         for ev in events_for(spec, snap, opts):
             res.kinds[ev[0]] = res.kinds.get(ev[0], 0) + 1
             h2 = hist + [list(ev)]
-            post, msgs, info = step(spec, state, ev, anc, norm, do_dry)
+            post, msgs, info = step(spec, state, ev, anc, norm, do_dry, order)
             res.runs += info["runs"]
             viol(msgs, h2)
             visit(post, h2)
@@ -633,31 +793,34 @@ def explore(spec, opts=None, norm=False):
                 fail_here = (out is None and fr is None) or (out == "all" and fr == top)
             else:
                 fail_here = out in fail_outs and (fr is None or fr == top)
-            if do_fail and fail_here:
-                for k in range(1, info["nops"] + 1):
-                    for fkind, me in (("exc", 0), ("exc", None), ("death", 0)):
-                        fev = ["FAILRUN", out, fr, k, fkind, me]
-                        postf, msgsf, inf = step(spec, state, fev, anc, norm)
-                        res.runs += inf["runs"]
-                        if postf is None:
-                            continue  # the k-th operation did not happen under this error policy
-                        res.kinds["FAILRUN"] = res.kinds.get("FAILRUN", 0) + 1
-                        hf = hist + [fev]
-                        viol(msgsf, hf)
-                        visit(postf, hf)
+            if do_fail and fail_here and not do_pops:
+                failruns(hist, state, out, fr, info["nops"])
+            # ---- every pop order of the random scheduler, each cut at every k
+            if do_pops and fr is None and out in (None, "all") and not info["failed"]:
+                for pre, postp, msgsp, infp in pop_orders(spec, state, out, fr, anc, norm, order):
+                    if pre is None:
+                        res.capped = True
+                        break
+                    res.pop_orders += 1
+                    res.runs += infp["runs"]
+                    hp = hist + [["RUN", out, fr, pre]]
+                    viol(msgsp, hp)
+                    visit(postp, hp)
+                    if do_fail:
+                        failruns(hist, state, out, fr, infp["nops"], pops=pre)
     res.states = len(seen)
     res.seen = seen
     return res
 
 
-def replay_history(spec, hist, norm=False, do_dry=False, verbose=False):
+def replay_history(spec, hist, norm=False, do_dry=False, verbose=False, order="topo"):
     """Re-execute a concrete history from the initial state; returns oracle messages of the last event."""
     anc = ancestors(spec)
     state = initial_state(spec)
     msgs = []
     for ev in hist:
         ev = tuple(ev)
-        post, msgs, info = step(spec, state, ev, anc, norm, do_dry)
+        post, msgs, info = step(spec, state, ev, anc, norm, do_dry, order)
         if verbose:
             print("EVENT", ev)
             w = info.get("world")
@@ -676,10 +839,10 @@ def replay_history(spec, hist, norm=False, do_dry=False, verbose=False):
 # --------------------------------------------------------------------------
 
 
-def check_dry(spec, state, post_real, w_real, r_real, out, fr, norm):
+def check_dry(spec, state, post_real, w_real, r_real, out, fr, norm, order="topo"):
     msgs = []
     snap, versions, clock = state
-    wb = World(spec, snap, versions, clock, norm)
+    wb = World(spec, snap, versions, clock, norm, order)
     rb = wb.run(out=out, fresh=fr, dry_run=True)
     bad = [e for e in wb.log if e[0] != "mtime"]
     if rb[0] != "ret":
@@ -712,8 +875,10 @@ def check_dry(spec, state, post_real, w_real, r_real, out, fr, norm):
 
     if multiset(wb.log) != multiset(w_real.log):
         msgs.append(("C14", f"dry-run plan performed {multiset(wb.log)}, the real run {multiset(w_real.log)}"))
-    if onode is not None:
-        v = vals[nodes.index(onode)]
+    if onode is not None and not any(n is onode for n in nodes):
+        msgs.append(("C14", f"the output node returned by the dry run ({onode!r}) is not a node of the returned physical plan"))
+    elif onode is not None:
+        v = vals[next(k for k, n in enumerate(nodes) if n is onode)]
         if v != r_real[1]:
             msgs.append(("C14", f"dry-run plan output {v!r} differs from the real run's {r_real[1]!r}"))
     # (times of unordered writes may legitimately differ between the two executions: compare values)
